@@ -2,17 +2,35 @@
   Feasibility of a schedule against the network constraints — transcription of
     * `ChargingNetwork.constraint_current` / `is_feasible`  (acnsim/network/charging_network.py:430-541)
     * `Interface.is_feasible`                                 (acnsim/interface.py:612-673)
-    * `algorithms.utils.infrastructure_constraints_feasible`  (algorithms/utils.py:6-54)
+    * `Interface._infrastructure_info` / `InfrastructureInfo._validate`
+                                                              (acnsim/interface.py:236-278, 452-475)
+    * `algorithms.utils.infrastructure_constraints_feasible`  (algorithms/utils.py:6-56)
 
   Each station `j` carries a unit phasor `(c_j, s_j)` (= `(cos φ_j, sin φ_j)`); the theorems
   use only `c_j² + s_j² = 1`.  Magnitudes are compared through squares
   (`|z| ≤ b  ↔  0 ≤ b ∧ re² + im² ≤ b²`), so no square root is needed in the carrier.
   A schedule is a list of rows (one per station, in network order), each a list over periods.
+
+  The `linear=True` modes and the infrastructure view of a constraint-free network follow the
+  REPAIRED code (fixes/F3.diff, F4.diff, F5.diff); the unrepaired variants are kept next to them
+  (`linAggCode`, `algLinearCode2`) as documentation of the defects.
 -/
 import AcnModel.Num
 
 namespace Acn.Feas
 open Acn
+
+/-- error classes of the entry points modelled here -/
+inductive FeasErr where
+  | invalidSchedule   -- interface.py:659 `InvalidScheduleError`
+  | valueError        -- interface.py:278 `InfrastructureInfo._validate`
+  | typeError         -- indexing `constraint_matrix = None` (unreachable through the public API)
+  deriving DecidableEq, Repr
+
+def FeasErr.name : FeasErr → String
+  | .invalidSchedule => "InvalidSchedule"
+  | .valueError => "ValueError"
+  | .typeError => "TypeError"
 
 section
 variable {K : Type} [Add K] [Sub K] [Mul K] [Neg K] [LT K] [LE K]
@@ -27,12 +45,18 @@ def col (S : List (List K)) (t : Nat) : List K := S.map (fun row => row.getD t 0
 /-- number of periods = length of the first row (numpy `shape[1]`; rows are equally long) -/
 def periods (S : List (List K)) : Nat := (S.headD []).length
 
-/-- `max(violation_tolerance, relative_tolerance * limit)` (numpy `maximum`) -/
+/-- `max(violation_tolerance, relative_tolerance * limit)` (numpy `maximum`),
+    charging_network.py:524,537 / utils.py:37-39 -/
 def tolOf (vt rt lim : K) : K := pyMax vt (rt * lim)
 
-/-- real / imaginary part of the aggregate phasor current of one constraint row in one period -/
+/-- real / imaginary part of the aggregate phasor current of one constraint row in one period
+    (charging_network.py:478-484: the schedule is multiplied by the phasors first, then `M @ ·`) -/
 def aggRe (row : List K) (x c : List K) : K := dotK row (List.zipWith (· * ·) x c)
 def aggIm (row : List K) (x s : List K) : K := dotK row (List.zipWith (· * ·) x s)
+
+/-- squared magnitude of the aggregate phasor current (`|constraint_current|²`) -/
+def sqMag (row : List K) (c s x : List K) : K :=
+  aggRe row x c * aggRe row x c + aggIm row x s * aggIm row x s
 
 /-- one constraint, one period, phase-aware -/
 def rowOk (row : List K) (lim vt rt : K) (c s x : List K) : Bool :=
@@ -45,11 +69,17 @@ def netFeasible (M : List (List K)) (lims : List K) (c s : List K) (vt rt : K)
   else (List.range (periods S)).all fun t =>
     (List.zip M lims).all fun (row, lim) => rowOk row lim vt rt c s (col S t)
 
-/-- the `linear=True` aggregate as the source computes it: `|Σ_j a_j x_j|` -/
+/-- the `linear=True` aggregate as the UNREPAIRED source computes it: `|Σ_j a_j x_j|`
+    (charging_network.py:473-475 before fixes/F4.diff) -/
 def linAggCode (row x : List K) : K := absK (dotK row x)
 
 /-- the `linear=True` aggregate as documented: `Σ_j |a_j| x_j` -/
 def linAggDoc (row x : List K) : K := dotK (row.map absK) x
+
+/-- the `linear=True` aggregate as the REPAIRED source computes it
+    (`np.abs(np.abs(M) @ S)`, charging_network.py:473-475 with fixes/F4.diff; `is_feasible`
+    takes `np.abs` of it once more, which is idempotent): `|Σ_j |a_j| x_j|` -/
+def linAggFixed (row x : List K) : K := absK (linAggDoc row x)
 
 /-- charging_network.py `is_feasible(linear=True)`; `agg` selects code/doc variant. -/
 def netFeasibleLinear (agg : List K → List K → K) (M : List (List K)) (lims : List K)
@@ -58,6 +88,10 @@ def netFeasibleLinear (agg : List K → List K → K) (M : List (List K)) (lims 
   else (List.range (periods S)).all fun t =>
     (List.zip M lims).all fun (row, lim) =>
       decide (agg row (col S t) ≤ lim + tolOf vt rt lim)
+
+/-- `ChargingNetwork.is_feasible(linear=True)` of the repaired code -/
+def netLinear (M : List (List K)) (lims : List K) (vt rt : K) (S : List (List K)) : Bool :=
+  netFeasibleLinear linAggFixed M lims vt rt S
 
 /-- algorithms/utils.py, `linear=False`, for a 1-D rate vector (one period). -/
 def algFeasible (M : List (List K)) (lims : List K) (c s : List K) (vt rt : K)
@@ -71,20 +105,156 @@ def algFeasible2 (M : List (List K)) (lims : List K) (c s : List K) (vt rt : K)
     (S : List (List K)) : Bool :=
   (List.range (periods S)).all fun t => algFeasible M lims c s vt rt (col S t)
 
+/-- algorithms/utils.py:49-55 with fixes/F5.diff, `linear=True`, 1-D rate vector:
+    `np.abs(np.abs(v) @ rates) <= limit + tol` -/
+def algLinear (M : List (List K)) (lims : List K) (vt rt : K) (x : List K) : Bool :=
+  (List.zip M lims).all fun (row, lim) =>
+    decide (absK (dotK (row.map absK) x) ≤ lim + tolOf vt rt lim)
+
+/-- algorithms/utils.py:49-55 with fixes/F5.diff, `linear=True`, 2-D rate matrix (per period) -/
+def algLinear2 (M : List (List K)) (lims : List K) (vt rt : K) (S : List (List K)) : Bool :=
+  (List.range (periods S)).all fun t => algLinear M lims vt rt (col S t)
+
+/-- UNREPAIRED algorithms/utils.py:51 for a 2-D rate matrix: the 2-norm ACROSS TIME of the
+    per-period sums `Σ_j |a_j| S_jt` is compared with the limit (through squares).  Kept as
+    documentation of defect F5; on 1-D input the unrepaired code raises `AxisError`. -/
+def algLinearCode2 (M : List (List K)) (lims : List K) (vt rt : K) (S : List (List K)) : Bool :=
+  (List.zip M lims).all fun (row, lim) =>
+    let b := lim + tolOf vt rt lim
+    decide (0 ≤ b) &&
+      decide (sumK ((List.range (periods S)).map fun t =>
+        linAggDoc row (col S t) * linAggDoc row (col S t)) ≤ b * b)
+
 /-- densify a `{station: [rates]}` mapping in network station order, zero rows for omitted
-    stations (interface.py:663-670, simulator.py:256-263). `len` is the common length. -/
+    stations (interface.py:663-670, simulator.py:256-263). `len` is the common length.
+    Keys that are not stations of the network are ignored, as in the source. -/
 def densify (stations : List String) (sched : List (String × List K)) (len : Nat) : List (List K) :=
   stations.map fun st =>
     match sched.lookup st with
     | some row => row
     | none => List.replicate len 0
 
-/-- interface.py:612-673 (`linear=False`): empty mapping ⇒ True; else delegate. -/
+/-- interface.py:612-673 (`linear=False`): empty mapping ⇒ True; else delegate.
+    Total version for mappings whose rows all have the same length (see `ifaceFeasibleE`). -/
 def ifaceFeasible (stations : List String) (M : List (List K)) (lims : List K) (c s : List K)
     (vt rt : K) (sched : List (String × List K)) : Bool :=
   match sched with
   | [] => true
   | (_, r) :: _ => netFeasible M lims c s vt rt (densify stations sched r.length)
+
+/-- interface.py:612-673 with `linear=True` (repaired network side), total version -/
+def ifaceLinear (stations : List String) (M : List (List K)) (lims : List K)
+    (vt rt : K) (sched : List (String × List K)) : Bool :=
+  match sched with
+  | [] => true
+  | (_, r) :: _ => netLinear M lims vt rt (densify stations sched r.length)
+
+/-- interface.py:653-673 including the error path: empty mapping ⇒ True (653-654); rows of
+    different lengths ⇒ `InvalidScheduleError` (657-659); else densify and delegate. -/
+def ifaceFeasibleE (stations : List String) (M : List (List K)) (lims : List K) (c s : List K)
+    (vt rt : K) (linear : Bool) (sched : List (String × List K)) : Except FeasErr Bool :=
+  match sched with
+  | [] => .ok true
+  | (_, r) :: rest =>
+    if rest.all (fun p => p.2.length == r.length) then
+      let S := densify stations sched r.length
+      .ok (if linear then netLinear M lims vt rt S else netFeasible M lims c s vt rt S)
+    else .error .invalidSchedule
+
+/-! ### the objects the three entry points live on -/
+
+/-- a numpy 2-D array: the shape survives when there are no rows -/
+structure Mat (K : Type) where
+  cols : Nat
+  rows : List (List K)
+
+/-- the part of `ChargingNetwork` the feasibility checks read (charging_network.py:42-55) -/
+structure Net (K : Type) where
+  stations : List String            -- `station_ids` (registration order)
+  c : List K                        -- Re e^{iφ_j} for `_phase_angles`
+  s : List K                        -- Im e^{iφ_j}
+  voltages : List K                 -- `_voltages`
+  matrix : Option (Mat K)           -- `constraint_matrix`: `None` until the first constraint
+  lims : List K                     -- `magnitudes`
+  cids : List String                -- `constraint_index`
+  vt : K                            -- `violation_tolerance`
+  rt : K                            -- `relative_tolerance`
+
+/-- `ChargingNetwork.is_feasible(schedule_matrix, linear, violation_tolerance, relative_tolerance)`
+    (charging_network.py:486-541): `None` tolerances default to the network's own. -/
+def Net.isFeasible (net : Net K) (S : List (List K)) (linear : Bool) (vt? rt? : Option K) :
+    Except FeasErr Bool :=
+  let vt := vt?.getD net.vt
+  let rt := rt?.getD net.rt
+  if net.lims.isEmpty then .ok true
+  else match net.matrix with
+    | none => .error .typeError
+    | some M =>
+      .ok (if linear then netLinear M.rows net.lims vt rt S
+           else netFeasible M.rows net.lims net.c net.s vt rt S)
+
+/-- `Interface.is_feasible(load_currents, linear, violation_tolerance, relative_tolerance)`
+    (interface.py:612-673) -/
+def Net.ifaceIsFeasible (net : Net K) (sched : List (String × List K)) (linear : Bool)
+    (vt? rt? : Option K) : Except FeasErr Bool :=
+  match sched with
+  | [] => .ok true
+  | (_, r) :: rest =>
+    if rest.all (fun p => p.2.length == r.length) then
+      net.isFeasible (densify net.stations sched r.length) linear vt? rt?
+    else .error .invalidSchedule
+
+/-- `InfrastructureInfo` as far as the feasibility check reads it (interface.py:142-226).
+    `max_pilot`, `min_pilot`, `allowable_pilots`, `is_continuous` are rebuilt from `station_ids`
+    at every registration (charging_network.py:66-96) and are not carried here. -/
+structure Infra (K : Type) where
+  nCons : Nat                       -- `constraint_matrix.shape[0]`
+  nCols : Nat                       -- `constraint_matrix.shape[1]`
+  matrix : List (List K)
+  lims : List K                     -- `constraint_limits`
+  c : List K                        -- cos of `phases`
+  s : List K                        -- sin of `phases`
+  voltages : List K
+  cids : List String
+  stations : List String
+
+/-- `InfrastructureInfo._validate` (interface.py:236-278): every station-indexed attribute has
+    one length, every constraint-indexed attribute has one length; otherwise `ValueError`. -/
+def Infra.validate (i : Infra K) : Except FeasErr Unit :=
+  if i.nCols = i.stations.length ∧ i.c.length = i.stations.length ∧ i.s.length = i.stations.length
+      ∧ i.voltages.length = i.stations.length
+      ∧ i.nCons = i.lims.length ∧ i.cids.length = i.lims.length then .ok ()
+  else .error .valueError
+
+/-- the matrix handed to `InfrastructureInfo` (interface.py:464-469 with fixes/F3.diff): a
+    network that has no constraint matrix yet is described by a `0 × N` matrix. -/
+def Net.mat (net : Net K) : Mat K :=
+  match net.matrix with
+  | none => { cols := net.stations.length, rows := [] }
+  | some M => M
+
+/-- the `InfrastructureInfo` record built from the network's attributes (interface.py:468-479) -/
+def Net.view (net : Net K) : Infra K :=
+  { nCons := net.mat.rows.length, nCols := net.mat.cols, matrix := net.mat.rows, lims := net.lims,
+    c := net.c, s := net.s, voltages := net.voltages, cids := net.cids, stations := net.stations }
+
+/-- `Interface._infrastructure_info` / `infrastructure_info` (interface.py:452-487 with
+    fixes/F3.diff): build the record, `_validate` it in the constructor. -/
+def Net.infraInfo (net : Net K) : Except FeasErr (Infra K) :=
+  match net.view.validate with
+  | .ok () => .ok net.view
+  | .error e => .error e
+
+/-- `infrastructure_constraints_feasible(rates, infrastructure, linear, vt, rt)` for a 2-D
+    `rates` matrix (utils.py:6-56 with fixes/F5.diff) -/
+def Infra.feasible2 (i : Infra K) (S : List (List K)) (linear : Bool) (vt rt : K) : Bool :=
+  if linear then algLinear2 i.matrix i.lims vt rt S
+  else algFeasible2 i.matrix i.lims i.c i.s vt rt S
+
+/-- … for a 1-D `rates` vector -/
+def Infra.feasible1 (i : Infra K) (x : List K) (linear : Bool) (vt rt : K) : Bool :=
+  if linear then algLinear i.matrix i.lims vt rt x
+  else algFeasible i.matrix i.lims i.c i.s vt rt x
 
 end
 end Acn.Feas
